@@ -32,7 +32,12 @@ def decCall : Sexp → Option ICall
   | list [atom "c", str f, str a, d, c] => do
       let d ← (match d with | atom "none" => some none | x => x.toNat?.map some)
       let c ← c.toNat?
-      pure ⟨f, a, d, c⟩
+      pure ⟨f, a, d, c, (match d with | some k => ["klon", "klev", "nblk"].getD ((k - 1) % 3) "klon" | none => "klon"), true⟩
+  | list [atom "c", str f, str a, d, c, str b, l] => do
+      let d ← (match d with | atom "none" => some none | x => x.toNat?.map some)
+      let c ← c.toNat?
+      let l ← l.toBool?
+      pure ⟨f, a, d, c, b, l⟩
   | _ => none
 
 def step : Sexp → Option Sexp
@@ -66,7 +71,8 @@ def step : Sexp → Option Sexp
       let calls ← mapM' decCall calls
       pure (list [atom "ok",
         list (atom "reported" :: (uboundReported args calls).map str),
-        list (atom "removed" :: (uboundRemoved args calls).map ofNat)])
+        list (atom "removed" :: (uboundRemoved args calls).map ofNat),
+        list (atom "shapes" :: (uboundShapes args calls).map fun (n, sh) => list (str n :: sh.map str))])
   | _ => none
 
 def main : IO Unit := driverMain step
